@@ -173,3 +173,163 @@ package ociauth
 //@ func urlHost
 //@   modifies nothing
 //@   ensures[no-path] !contains(result, "/")
+
+// ---------------------------------------------------------------------------
+// C10 / C11: the auth transport.
+//
+// Scope.Contains, Scope.Union, ParseScope and Scope.String are used here as
+// pure functions of their (value) arguments; what they compute is C09's
+// business. Token expiry is compared with time.Time's value methods.
+//@ func (Scope).Contains
+//@   pure
+//@ func (Scope).Union
+//@   pure
+//@ func ParseScope
+//@   pure
+//@ func (Scope).String
+//@   pure
+
+// Per-host state: the registry record filed under a host name is the record
+// of that host, so the credentials, tokens and challenge kept in it are only
+// ever used for requests to that host.
+//@ guarded_by stdTransport.mu: stdTransport.registries
+//@ guarded_by registry.mu: registry.wwwAuthenticate, registry.accessTokens, registry.refreshToken, registry.basic
+//@ immutable stdTransport.registries
+//@ iface-pure Context.Value
+//@ immutable stdTransport.config, stdTransport.transport, registry.host, registry.transport, registry.config
+//@ invariant (*stdTransport) self != nil && self.registries != nil && self.transport != nil && self.config != nil
+//@ invariant (*stdTransport) forall h string :: in(self.registries, h) ==> self.registries[h] != nil && self.registries[h].host == h
+//@ invariant (*registry) self != nil && self.transport != nil && self.config != nil
+// The challenge a record remembers is one its host issued (isChallenge marks
+// what challengeFromResponse parsed out of a response).
+//@ pure func isChallenge(h *authHeader) bool
+//@ invariant (*registry) self.wwwAuthenticate != nil ==> isChallenge(self.wwwAuthenticate)
+//@ invariant (*registry) forall i int :: 0 <= i && i < len(self.accessTokens) ==> self.accessTokens[i] != nil
+//@ immutable scopedToken.scope, scopedToken.token, scopedToken.expires
+
+// Cache lookup: the token returned is a cached token whose scope contains the
+// scope asked for; none is returned only if no cached token's scope does.
+//@ func (*registry).accessTokenForScope
+//@   holds r.mu
+//@   log
+//@   modifies nothing
+//@   loop 0 invariant forall j int :: 0 <= j && j <= rangeindex ==> !r.accessTokens[j].scope.Contains(scope)
+//@   ensures[a-cached-token-that-covers-the-scope] result != nil ==> memberOf(r.accessTokens, result) && result.scope.Contains(scope)
+//@   ensures[none-only-if-none-covers] result == nil ==> forall j int :: 0 <= j && j < len(r.accessTokens) ==> !r.accessTokens[j].scope.Contains(scope)
+
+// Expired tokens are dropped (and only those).
+//@ func (*registry).deleteExpiredTokens
+//@   holds r.mu
+//@   log
+//@   modifies ociauth.registry.accessTokens
+//@   ensures[only-fresh-tokens-remain] forall t *scopedToken :: memberOf(r.accessTokens, t) ==>
+//@     !now.After(t.expires) && memberOf(old(r.accessTokens), t)
+//@   ensures[fresh-tokens-are-kept] forall t *scopedToken :: memberOf(old(r.accessTokens), t) && t != nil && !now.After(t.expires) ==> memberOf(r.accessTokens, t)
+//@ func (*registry).deleteExpiredTokens$1
+//@   requires tok != nil
+
+// A token is recorded under the scope of the token request that produced it:
+// the wide request (required + desired) or, when the token server refuses
+// that with 401, the narrow retry with the required scope only.
+//@ func (*registry).acquireAccessToken
+//@   holds r.mu
+//@   log
+//@   modifies ociauth.registry.accessTokens, ociauth.registry.refreshToken, url.URL.RawQuery
+//@   requires r.wwwAuthenticate != nil
+//@   ensures[recorded-under-the-scope-it-was-issued-for] result.1 == nil ==> len(r.accessTokens) == old(len(r.accessTokens)) + 1 &&
+//@     r.accessTokens[len(r.accessTokens) - 1].token == result.0 && result.0 != "" &&
+//@     ((calls == [r.acquireToken(ctx, requiredScope.Union(wantScope))] && r.accessTokens[len(r.accessTokens) - 1].scope == requiredScope.Union(wantScope)) ||
+//@      (calls == [r.acquireToken(ctx, requiredScope.Union(wantScope)), r.acquireToken(ctx, requiredScope)] && r.accessTokens[len(r.accessTokens) - 1].scope == requiredScope))
+//@   ensures[older-tokens-kept] forall j int :: 0 <= j && j < old(len(r.accessTokens)) ==> j < len(r.accessTokens) && r.accessTokens[j] == old(r.accessTokens[j])
+//@   ensures[challenge-untouched] r.wwwAuthenticate == old(r.wwwAuthenticate) && r.basic == old(r.basic)
+
+//@ func (*registry).acquireToken
+//@   holds r.mu
+//@   log
+//@   requires r.wwwAuthenticate != nil
+//@   modifies url.URL.RawQuery
+//@   ensures[token-or-error] result.1 == nil ==> result.0 != nil
+
+// setAuthorization: what goes into the request before it is first sent.
+//  * a cached token is used only if it survived the expiry sweep (it does not
+//    expire before one second from now) and its scope contains the required
+//    scope; then no token request is made;
+//  * nothing is added before the host has answered 401 with a challenge
+//    (in particular no password);
+//  * the password goes out as Basic only when the last challenge was not a
+//    Bearer challenge; with a Bearer challenge only the refresh-token flow runs.
+//@ func (*registry).setAuthorization
+//@   private req
+//@   modifies ociauth.registry.accessTokens, ociauth.registry.refreshToken, url.URL.RawQuery, map:http.Header
+//@   requires req != nil && req.Header != nil
+//@   ensures[cached-token-goes-into-the-header] accessToken#0 != nil ==> result == nil &&
+//@     hdr(req.Header, "Authorization") == "Bearer " + accessToken#0.token
+//@   ensures[cached-token-is-sufficient] accessToken#0 != nil ==> accessToken#0.scope.Contains(requiredScope)
+//@   ensures[cached-token-is-its-own] accessToken#0 != nil ==> memberOf(old(r.accessTokens), accessToken#0)
+//@   ensures[cached-token-is-fresh] accessToken#0 != nil ==>
+//@     calls == [r.deleteExpiredTokens(_), r.accessTokenForScope(requiredScope)] && !calls[0].arg.1.After(accessToken#0.expires)
+//@   ensures[covering-token-means-no-token-request] ncallsOf("accessTokenForScope") == 1 && (accessToken#0 != nil ==> ncallsOf("acquireAccessToken") == 0)
+//@   ensures[nothing-before-a-challenge] accessToken#0 == nil && old(r.wwwAuthenticate) == nil ==> result == nil &&
+//@     hdr(req.Header, "Authorization") == old(hdr(req.Header, "Authorization")) && ncallsOf("acquireAccessToken") == 0
+//@   ensures[bearer-challenge-never-gets-the-password] accessToken#0 == nil && old(r.wwwAuthenticate) != nil && old(r.wwwAuthenticate.scheme) == "bearer" &&
+//@     old(r.refreshToken) == "" ==> hdr(req.Header, "Authorization") == old(hdr(req.Header, "Authorization")) && ncallsOf("acquireAccessToken") == 0
+//@   ensures[refresh-token-flow-asks-for-required-and-desired] accessToken#0 == nil && old(r.wwwAuthenticate) != nil && old(r.wwwAuthenticate.scheme) == "bearer" &&
+//@     old(r.refreshToken) != "" ==> calls == [r.deleteExpiredTokens(_), r.accessTokenForScope(requiredScope), r.acquireAccessToken(ctx, requiredScope, wantScope)] &&
+//@     (result == nil ==> hdr(req.Header, "Authorization") == "Bearer " + calls[2].result.0)
+//@   ensures[basic-only-after-a-non-bearer-challenge] accessToken#0 == nil && old(r.wwwAuthenticate) != nil && old(r.wwwAuthenticate.scheme) != "bearer" ==>
+//@     ncallsOf("acquireAccessToken") == 0 && (old(r.basic) != nil ==> hdr(req.Header, "Authorization") == basicAuth(old(r.basic.username), old(r.basic.password)))
+//@   ensures[challenge-untouched] r.wwwAuthenticate == old(r.wwwAuthenticate)
+
+// Answering a challenge: it is remembered; a Bearer challenge is answered with
+// a token requested for the challenge's own scope as the required part and
+// the caller's required + desired scopes as the rest; any other challenge is
+// answered with Basic credentials if there are any.
+//@ func (*registry).setAuthorizationFromChallenge
+//@   private req
+//@   modifies ociauth.registry.accessTokens, ociauth.registry.refreshToken, ociauth.registry.wwwAuthenticate, url.URL.RawQuery, map:http.Header
+//@   requires req != nil && req.Header != nil && challenge != nil && isChallenge(challenge)
+//@   ensures[challenge-remembered] r.wwwAuthenticate == challenge
+//@   ensures[bearer-answered-with-a-token-for-the-challenge-scope] old(challenge.scheme) == "bearer" ==>
+//@     calls == [r.acquireAccessToken(ctx, ParseScope(old(challenge.params["scope"])), wantScope.Union(requiredScope))] &&
+//@     (result.2 == nil ==> result.0 && result.1 && hdr(req.Header, "Authorization") == "Bearer " + calls[0].result.0) &&
+//@     (result.2 != nil ==> !result.0 && !result.1)
+//@   ensures[other-challenges-get-basic-or-nothing] old(challenge.scheme) != "bearer" ==> ncalls() == 0 && result.2 == nil && !result.1 &&
+//@     result.0 == (old(r.basic) != nil) &&
+//@     (old(r.basic) != nil ==> hdr(req.Header, "Authorization") == basicAuth(old(r.basic.username), old(r.basic.password))) &&
+//@     (old(r.basic) == nil ==> hdr(req.Header, "Authorization") == old(hdr(req.Header, "Authorization")))
+
+// init reads the configured credentials of this record's own host, once.
+//@ func (*registry).init
+//@   modifies ociauth.registry.refreshToken, ociauth.registry.accessTokens, ociauth.registry.basic, ociauth.registry.initErr, ociauth.registry.initOnce
+// (init's writes happen inside sync.Once.Do, before init returns for the
+// first time on any goroutine, and every use of the record comes after its
+// own call of init: the Once gives the ordering the mutex would)
+//@ func (*registry).init$1
+//@   holds r.mu
+//@   ensures[credentials-of-its-own-host] calls == [r.config.EntryForRegistry(r.host)]
+//@ func (*registry).init$2
+//@   requires inner != nil
+
+// RoundTrip: the record used is the one filed under the request's host (so
+// only that host's credentials, tokens and challenge are in play); the
+// request is sent at most twice; the remembered challenge changes only when
+// the host issued one; a 401 in answer to a freshly acquired token is
+// surfaced as 403.
+//@ func (*stdTransport).RoundTrip
+//@   strings atom
+//@   private resp, req
+//@   requires req != nil && req.URL != nil && req.Header != nil
+//@   ensures[record-of-the-request-host] r != nil ==> r.host == old(req.URL.Host)
+//@   ensures[at-most-two-attempts] ncallsOf("RoundTrip") <= 2
+//@   ensures[fresh-token-unauthorized-becomes-forbidden] result.1 == nil && result.0 != nil && authAdded && tokenAcquired ==> result.0.StatusCode != 401
+
+// Assumed interface contract of the underlying transport (net/http's): a nil
+// error comes with a response that has a body and a header map.
+//@ iface-ensures RoundTripper.RoundTrip(req) result.1 == nil ==> result.0 != nil && result.0.Body != nil && result.0.Header != nil
+//@ func NewStdTransport
+//@   ensures result != nil
+//@ func challengeFromResponse
+//@   trusted
+//@   modifies nothing
+//@   requires resp != nil
+//@   ensures[marks-what-it-parsed] result != nil ==> isChallenge(result)
